@@ -145,7 +145,7 @@ def _vm_reqs(tok):
     return _vm_list(ps, "str"), _vm_list(qs, "(list (str * str * option N))")
 
 
-_VM_PRELUDE = """From Oras Require Import Base.Prelude Generated.GC15 Model.Paging.
+_VM_PRELUDE = """From Oras Require Import Base.Prelude Generated.GC15 Model.Paging Model.PagingUrl Model.PagingJson.
 Definition vm_dead : response := mkResp 599 false [] false 0 0 [] [] [] [].
 Definition vm_resolve (tbl : list (str * option url)) (_ : url) (t : str) : option url :=
   match find (fun e => str_eqb (fst e) t) tbl with Some e => snd e | None => None end.
@@ -211,6 +211,56 @@ def _vm_goal(case, out):
             ["(%s, %s)" % tuple(_vm_str(x) for x in e.split(":")) for e in p[1].split(",")], "(str * str)")
         exp = _vm_list([] if o[0] == "_" else [_vm_str(x) for x in o[0].split(",")], "str")
         return "list_tags %s %s = %s" % (ents, _vm_str(p[2]), exp)
+    if k == "CA":
+        cfg, loop, _ = _vm_client(p[1:])
+        return "collect_all %s = (%s, %s)" % (loop, o[3], _vm_items(o[1]))
+    if k == "CS":
+        sch, hst = p[1], p[2]
+        kd, n, limit, at, last, cbf, path, q, nresp = p[3:12]
+        nr = int(nresp)
+        rest = p[12:]
+        resps = []
+        for i in range(nr):
+            st, nu, ct, js, dl, tl, its, links, fh, fa, tt, tp, tq = rest[13 * i:13 * i + 13]
+            ls = _vm_list([] if links == "_" else [_vm_str(x) for x in links.split(",")], "str")
+            resps.append("(mkResp %s %s %s %s %s %s %s %s %s %s)" % (st, _vm_bool(nu), _vm_str(ct), _vm_bool(js), dl, tl,
+                                                                      _vm_items(its), ls, _vm_str(fh), _vm_str(fa)))
+        cfg = "(mkCfg %s %s %s %s)" % (_vm_kind(kd), _vm_z(n), _vm_z(limit), _vm_str(at))
+        serve = "(fun (i : nat) (_ : sreq) => nth i %s vm_dead)" % _vm_list(resps, "response")
+        cb = "(fun k : nat => Nat.eqb k %d)" % int(cbf) if int(cbf) >= 0 else "(fun _ : nat => false)"
+        q0 = "(referrers_q0 %s)" % _vm_str(at) if kd == "R" else "(@nil N)"
+        call = "loop_s %s %s %s %s %s %d 0 0 %s %s %s" % (_vm_str(sch), _vm_str(hst), serve, cb, cfg, nr + 2, _vm_str(path), q0, _vm_str(last))
+        if o[0] == "UNJUDGED":
+            return "%s = None" % call
+        reqs = _vm_list(["(mkSR %s %s)" % tuple(_vm_str(x) for x in r.split("?", 1)) for r in ([] if o[1] == "_" else o[1].split("|"))], "sreq")
+        return "%s = Some (mkST %s %s %s)" % (call, reqs, _vm_pages(o[4], int(o[3])), o[6])
+    if k == "U":
+        kd, n, sch, hst, bp, bq, hdr = p[1:8]
+        call = "next_request (mkCfg %s %s 0%%Z []) (mkS %s %s %s %s) %s" % (_vm_kind(kd), _vm_z(n), _vm_str(sch), _vm_str(hst), _vm_str(bp), _vm_str(bq), _vm_str(hdr))
+        exp = {"NONE": "NNone", "ERRLINK": "NErrLink", "ERRRESOLVE": "NErrResolve", "UNJUDGED": "NUnjudged"}.get(o[0])
+        if o[0] == "NEXT":
+            exp = "NNext %s %s" % (_vm_str(o[1]), _vm_str(o[2]))
+        return "%s = %s" % (call, exp)
+    if k == "U0":
+        kd, n, at, last = p[1:5]
+        q0 = "(referrers_q0 %s)" % _vm_str(at) if kd == "R" else "(@nil N)"
+        return "first_query (mkCfg %s %s 0%%Z %s) %s %s = %s" % (_vm_kind(kd), _vm_z(n), _vm_str(at), q0, _vm_str(last), _vm_str(o[0]))
+    if k == "QS":
+        kvs = _vm_list(["(%s, %s)" % (_vm_str(p[i]), _vm_str(p[i + 1])) for i in range(2, len(p) - 1, 2)], "(str * str)")
+        return "set_query_params %s %s = %s" % (_vm_str(p[1]), kvs, _vm_str(o[0]))
+    if k == "QE":
+        return "(query_escape %s, query_unescape %s) = (%s, %s)" % (_vm_str(p[1]), _vm_str(p[1]), _vm_str(o[0]), "None" if o[1] == "!" else "Some %s" % _vm_str(o[1]))
+    if k == "XB":
+        return "consumed_index %s %s = %s" % (_vm_z(p[1]), p[2], o[0])
+    if k == "RB":
+        return "consumed_of %s %s %s = %s" % (_vm_z(p[1]), p[2], p[3], o[0])
+    if k == "J":
+        return "scan %s = %s" % (_vm_str(p[1]), "Some %s%%nat" % o[1] if o[0] == "OK" else "None")
+    if k == "RR":
+        call = "resolve_ref (mkS %s %s %s %s) %s" % tuple(_vm_str(x) for x in p[1:6])
+        if o[0] == "OK":
+            return "%s = ROk (mkS %s %s %s %s)" % ((call,) + tuple(_vm_str(x) for x in o[1:5]))
+        return "%s = %s" % (call, {"ERR": "RErr", "UNJUDGED": "RUnjudged"}[o[0]])
     if k == "P":
         state = {"U": "RUnknown", "S": "RSupported", "N": "RUnsupported"}
         rs = "(mkResp %s %s %s true 0 0 [] [] [] [])" % (p[2], _vm_bool(p[3]), _vm_str(p[4]))
@@ -234,7 +284,8 @@ def _c15_vm_sample(d, tier, coq, build, want=300):
             i, _, o = l.rstrip("\n").partition(" ")
             outs[i] = o
     # a spread over the case kinds, small cases preferred (the term is type-checked too)
-    quota = {"C": 105, "W": 75, "S": 50, "L": 15, "F": 8, "FR": 8, "Z": 6, "O": 12, "X": 11, "P": 10}
+    quota = {"C": 80, "W": 60, "S": 45, "L": 10, "F": 6, "FR": 6, "Z": 6, "O": 10, "X": 10, "P": 8,
+             "U": 40, "U0": 10, "QS": 15, "QE": 10, "RR": 40, "CS": 40, "J": 30, "RB": 30, "XB": 10, "CA": 30}
     got = collections.Counter()
     stride = collections.Counter()
     total = collections.Counter()
@@ -292,8 +343,8 @@ def _c15_vm_sample(d, tier, coq, build, want=300):
 
 CONFIG = {
     "properties_file": "Properties/C15.v",
-    "proof_files": ["Base/Prelude.v", "Proofs/Paging.v"],
-    "model_files": ["Generated/GC15.v", "Model/Paging.v"],
+    "proof_files": ["Base/Prelude.v", "Proofs/Paging.v", "Proofs/PagingUrl.v", "Proofs/PagingFacts.v", "Proofs/PagingJson.v"],
+    "model_files": ["Generated/GC15.v", "Model/Paging.v", "Model/PagingUrl.v", "Model/PagingJson.v"],
     "extract": "XC15.v",
     "ml_main": "c15_main.ml",
     "harness": "c15",
@@ -301,22 +352,25 @@ CONFIG = {
     "post_model": _c15_vm_sample,
     "timeout_search": 1500,
     "assumptions": [
-        "net/url (URL.Parse reference resolution, URL.String, Query/Encode escaping) is abstract: the theorems quantify over any Link rendering `render` and resolver `resolve` such that resolving the registry's link text against the request URL yields the intended target (same path; query = cursor `last`, the registry's extra parameters, the request's other parameters); the harness checks this on every followed link for absolute, absolute-path, path-relative, query-only and scheme-relative forms with escaped values",
-        "encoding/json is abstract: a response is (well-formed?, document length, body length, decoded items) as declared by the generator for the shapes it produces (natural, padded inside, `null` / `{\"tags\":null}` for an empty page, leading white space, a second document behind, truncated/ill-typed bodies); C15_limit_bytes assumes the stream decoder is self-delimiting on the document (decoding stops at its end; no proper prefix is accepted) -- the harness checks it with documents of limit-1, limit, limit+1 bytes incl. the 4 MiB default",
-        "queries are association lists key -> value (n numeric); setting n / last replaces that key and keeps every other pair as written (code after fix 635f618: the raw query is edited, nothing is re-encoded; before it, pairs that url.ParseQuery rejects were dropped -- generated as raw `;` / malformed-escape pairs, corpus/C15/rawquery-prefix.json); the order of different keys is not modelled (compared key-sorted)",
+        "net/url is MODELLED on byte strings for a judged subset (Model/PagingUrl.v: Parse of a reference incl. scheme detection, first-segment-colon and bad-escape errors, host[:port] authorities, ResolveReference with Go 1.26 dot-segment removal, re-parse by http.NewRequest; fragments, user info, valid %-escapes or exotic bytes in a path, non-ASCII, opaque URLs are UNJUDGED) and compared with the real client on every followed link (raw path + raw query, byte for byte) and on random references; the association-list theorems (C15_exactly_once ...) still quantify over an abstract `render`/`resolve`, connected to the string level by C15_next_request_link_forms (forms </p?q>, <?q>, <http://h/p?q>, <//h/p?q>) and C15_next_request_dot_relative (<./seg?q>), C15_step_simulation and the all-histories refinement C15_string_loop_refines (hypotheses: the server answers indistinguishable requests alike; net/url-as-modelled and the abstract resolver agree on the links served)",
+        "encoding/json: WHERE the first value of the stream ends is modelled (Model/PagingJson.v scan: brackets counted outside strings, leading white space) and compared with json.Decoder.InputOffset on generated valid object/array documents, all their prefixes, documents followed by more input, and on the bodies of the listings themselves (the declared document length = the decoder's = the scanner's); the self-delimiting property is a THEOREM of that scanner (C15_json_self_delimiting, C15_limit_bytes_scan: behind limitReader a document is decoded completely when it fits, not at all otherwise); the grammar inside the brackets and the mapping to Go values (which items a document decodes to, `null`, ill-typed fields) stay declared by the generator (well-formed?, decoded items)",
+        "queries: the association-list model (url.Values.Set = replace) is refined by the string model of setQueryParams / QueryEscape / QueryUnescape (C15_set_query_params_verbatim, _read, C15_request_query_refines: for every key a registry looks up it reads what the association-list request says; lookup = first match of a lenient parse, as fakereg.ParseQueryLenient); bytes are < 256; the pre-fix lossy url.Values round trip is kept as mk_request_prefix (C15_lossy_query_refuted)",
         "the registry model's meaning of `last`: items after the entry named last; an unknown name is placed before the first greater item (= all greater items on a sorted registry, C15_last_on_sorted_registry); item names are non-empty and distinct",
         "a legal registry: page window of length in [1, min(cap, n)] chosen freely per request, of which it shows any subset (`vis`: entries it does not show give empty pages with a link); Link iff items remain after the window; its continuation is either `last=<last item of the window>` or an opaque cursor under another key (CToken key salt, key different from n/last/artifactType, value salt++name; such a link carries no `last`); the link may point to another path (`npath`) and may be answered after a redirect hop; it does not change artifactType and filters whenever it announces filtering (header or annotation, comma separated list)",
         "http transport, auth client and context cancellation are outside the model; Repository.Referrers' capability detection (unknown/supported/unsupported, fallback to the tag schema, state set once) is modelled (referrers_wrap, C15_referrers_capability) on top of the API loop and the tag-schema path; the tag-schema path is modelled at the level (tag found?, index size, listed referrers): limitSize + filterReferrers (C15_tag_schema), manifest fetch / digest verification are C13/C05 matters; pingReferrers is modelled on one response (C15_ping_agrees)",
         "Link: only the first header line and its first <...> are read (model = code); link-values/lines AFTER the next link are covered by the theorems (trailer) and generated; a link-value of another relation BEFORE the next link is the known finding link-rel-ignored (C15_link_rel_first_refuted), generated in a separate stream whose failures carry only that signature",
         "Content-Type of a referrers response is compared verbatim with ocispec.MediaTypeImageIndex (hand-copied constant of the pinned image-spec dependency): parameters or another spelling count as 'no referrers API' (C15_content_type_exact) -- modelled as the code behaves, generated as a disturbance",
-        "never over-read: the theorems speak of the reader abstraction `seen` (what passes limitReader is a prefix of the body of at most the limit, C15_limit/C15_limit_bytes) and of `limitSize`; how many bytes the decoder actually pulls is NOT modelled -- that clause is judged by the harness oracle with a counting body on every 200 answer (listings, Referrers wrapper incl. the index GET of the fallback, body cases); error bodies (non-200) are read by errutil under its own 8 KiB limit and are not judged",
+        "never over-read: the bytes a decoded answer costs are MODELLED (Model/PagingJson.v consumed_of: limitReader, then json.Decoder's refills 512, 1536, 3584 ... until the value is complete or EOF) and compared with a counting body on every decoded listing answer (RB lines, incl. the 4 MiB default); C15_bytes_consumed: never more than MaxMetadataBytes, never more than the body; the independent oracle (BytesRead <= limit) stays on every 200 answer incl. the Referrers wrapper and the index GET of the tag-schema fallback (its bytes: consumed_index, C15_bytes_consumed_index, compared on the tag-schema stream); error bodies (non-200) are read by errutil under its own 8 KiB limit and are not judged",
         "calculateDigestFromResponse (manifest GET without Docker-Content-Digest) is modelled (digest_probe, C15_digest_probe: Content-Length over the limit refused before reading, else limitReader; the theorem assumes Content-Length = body length, which the transport guarantees); its first version (limit+1 reader) is kept as digest_probe_v1 with a refuted witness, fixed finding over-read-digest-probe; content/oci: a reference in digest form can only be the content's own digest (C08 fix 2b70301), the generator checks that the digest of other content is refused and that Tags() skips digest entries",
         "the known finding link-rel-ignored is matched by mechanism: only exactly-once / next-request / spurious-error failures of a run in which some request IS the target of the rel=first link-value; every other signature in such a run is reported as itself",
+        "47 syntactic facts about the mirrored Go functions (translator kind c15_srcfact: where `last` is cleared, how parseLink reads and resolves the header, setQueryParams' split/cut/unescape/escape, the error texts the harness classifies by, limitReader, the Referrers fallback condition, listTags' comparisons) are regenerated on every run and proved by reflexivity (Proofs/PagingFacts.v): an edit there breaks layer P; 27 functions are anchored",
+        "registry.Tags / registry.Repositories / registry.Referrers / Repository.Predecessors (collect a whole listing) are modelled (collect_all, C15_collect_all, C15_collect_all_referrers) and run on a quarter of the scenarios (CA lines + oracle)",
+        "every call into the implementation runs under a 20 s watchdog: a wedge is the oracle failure `hang` with the scenario as replay",
         "every input stream has a coverage floor (harness exits non-zero = broken layer R when a stream is nearly empty)",
         "content/oci listTags is modelled on the resolver map as a list of (reference, digest of its descriptor) in any order; Go string order = byte-wise lexicographic order",
     ],
     "level_text": "Coq theorems for all item lists, split oracles, caps, page sizes, values of last, Link renderings and filter announcements: Tags/Repositories/Referrers deliver exactly the registry's suffix after last (resp. the referrers of the requested artifact type), once, in order, within |suffix|+1 requests; a failing callback truncates the listing at that invocation with its error; pages come only from documents that fit MaxMetadataBytes (<= 0 = regenerated default), at most that many bytes pass the reader; Repository.Referrers takes its callback arguments from exactly one of the API and the tag schema, returns a callback error unchanged and sets the capability once (after fix a06e319); the referrers tag-schema fallback rejects an index over the limit and otherwise delivers the filtered referrers of the cleaned index (no empty entry, no descriptor twice) in one non-empty page; content/oci listTags is the sorted set of non-digest references greater than last for every map order. Model tied to registry/remote and content/oci by a differential run against an in-process fake registry (PRNG split oracle, five Link forms, malformed stream) and an independent oracle",
-    "level_note": "the clause `no more than MaxMetadataBytes is read` is a theorem only about the reader abstraction (prefix of at most the limit); the bytes really consumed are oracle-only. net/url resolution and encoding/json are hypotheses of the theorems (checked by the harness on every followed link / around the limit); transport, auth and manifest fetching of the tag-schema fallback are not modelled; Link relation types are ignored by the code (known finding link-rel-ignored)",
+    "level_note": "C15_exactly_once_concrete: for registries writing </path?escaped query> links, exactly-once (Tags/Repositories, any page size, any cursor kind, hidden entries, extra link parameters) is proved with net/url AS MODELLED (resolve_ref) and no hypothesis on rendering/resolution left; the same for Referrers (C15_filter_concrete); for the other link forms the abstract render/resolve hypotheses remain, connected by C15_next_request_link_forms / _dot_relative / C15_step_simulation; the refinement loop_s -> loop needs servers whose answers depend on a request only through key lookups (Hserve), which excludes registries echoing parameters verbatim in another order (covered by the correspondence only). string level (net/url subset, setQueryParams, escaping, loop_s) modelled, corresponded on raw requests and proved to refine the association-list loop; the composition with the registry theorems is via the hypotheses of C15_exactly_once_string_loop (server coherence, link coherence), discharged per step for four link forms (C15_step_simulation). the clause `no more than MaxMetadataBytes is read` is a theorem about a model of limitReader + decoder buffering that is compared with the real byte count on every decoded answer (tag-schema index reads and error bodies: oracle only / not judged). net/url resolution and encoding/json are hypotheses of the theorems (checked by the harness on every followed link / around the limit); transport, auth and manifest fetching of the tag-schema fallback are not modelled; Link relation types are ignored by the code (known finding link-rel-ignored)",
     "technique": "machine-checked proof in Coq (induction over the page loop against a nondeterministic registry; prefix/refinement for callback failure; sorting) + translator-regenerated constants + model/implementation correspondence against harness/fakereg",
     "explanation": "theorems over all lists/splits/links about the model of the page loops, parseLink, limitReader, filterReferrers and listTags; constants regenerated from registry/remote; model and real client run on the same fake-registry scripts (requests, callback arguments, outcome compared), the fake registry's pages compared with the registry model; independent exactly-once / stop-on-error / over-read / truncation / sortedness oracle",
 }
